@@ -489,6 +489,11 @@ def parallel_twins(ctx, LFR, outer_tap):
 
 # ---------------------------------------------------------------- run
 def run(ctx):
+    # detector objects are independent of one another (a consequence of "the outputs are a function of the detector's own
+    # parameters and history"): solo trace = trace when a second object of the class is updated alternately (impl/zoo.py)
+    from impl import zoo as _zoo
+    for _f in _zoo.isolation_failures(ctx, ['LinearFourRates']):
+        ctx.fail(signature={"clause": "detector-objects-independent"}, **_f)
     from menelaus.concept_drift import LinearFourRates as LFR
     tap = Tap()
     tap.install()
